@@ -195,3 +195,49 @@ MUTANTS += [
     M("c16-r3-revert-orchestration-nil-check", "C16", "C16.R3", RUNCONF, "\tif conf.Orchestration.Value == nil {\n\t\treturn conf, schema, stats, fmt.Errorf(\"orchestration is unspecified\")\n\t}\n", "", "configuration file without an orchestration section: original defect D18"),
     M("c16-r4-skip-transformations", "C16", "C16.R4", RUNCONF, "\tif err := bsupport.VerifyTransformConfigs(conf.Transformations, schema, \"transforms\"); err != nil {\n\t\treturn conf, schema, stats, err\n\t}\n", "\t_ = bsupport.VerifyTransformConfigs\n", "any invalid top-level transform"),
 ]
+
+MPACK = "output/shared/messagepacker.go"
+FFCHUNK = "output/fluentdforward/chunk.go"
+FFENC = "output/fluentdforward/chunkencoder.go"
+
+MUTANTS += [
+    # ---------------- C11
+    M("c11-r1-write-into-old-chunk", "C11", "C11.R1", MPACK, "\t\tif !packer.currentChunk.CanAppendData(len(stream)) {\n\t\t\tpreviousChunk = packer.FlushBuffer()\n\t\t}", "\t\tif !packer.currentChunk.CanAppendData(len(stream)) {\n\t\t\tpacker.currentChunk.Write(stream) //nolint:errcheck\n\t\t\tpreviousChunk = packer.FlushBuffer()\n\t\t}", "a record arriving exactly when the chunk is full: written twice (old and new chunk)"),
+    M("c11-r1-no-new-chunk-after-flush-error", "C11", "C11.R1", MPACK, "\tif packer.currentChunk == nil {\n\t\tpacker.currentChunk = packer.chunkFactory.NewChunk()\n\t}\n", "\tif packer.currentChunk == nil && previousChunk == nil {\n\t\tpacker.currentChunk = packer.chunkFactory.NewChunk()\n\t}\n", "first record after a roll-over: nil chunk dereference"),
+    M("c11-r2-keep-current-after-flush", "C11", "C11.R2", MPACK, "\tpacker.currentChunk = nil\n\n\treturn result", "\treturn result", "second flush re-emits the same chunk with more records"),
+    B("c11-r1-benign-len-local", "C11", MPACK, "\tif packer.currentChunk != nil {\n\t\tif !packer.currentChunk.CanAppendData(len(stream)) {", "\tif packer.currentChunk != nil {\n\t\tif n := len(stream); !packer.currentChunk.CanAppendData(n) {"),
+    M("c11-r3-count-failed-write", "C11", "C11.R3", FFCHUNK, "\tif err == nil {\n\t\tchunk.numRecords++\n\t\tchunk.numBytes += len(data)\n\t}", "\tchunk.numRecords++\n\tif err == nil {\n\t\tchunk.numBytes += len(data)\n\t}", "a compressor write error: the chunk announces more records than it contains"),
+    M("c11-r4-alias-shared-buffer", "C11", "C11.R4", FFCHUNK, "\t\tchunkData = util.CopySlice(chunk.writeBuffer.Bytes())", "\t\tchunkData = chunk.writeBuffer.Bytes()\n\t\t_ = util.CopySlice[byte]", "encoder-less mode: the next chunk overwrites the previous chunk's bytes while it is queued"),
+    M("c11-r4-read-before-close", "C11", "C11.R4", FFCHUNK, "\tif chunk.compressor != nil {\n\t\tif err := chunk.compressor.Close(); err != nil {\n\t\t\treturn nil, err\n\t\t}\n\t}\n\n\tdefer chunk.writeBuffer.Reset()\n", "\tdefer chunk.writeBuffer.Reset()\n", "compressed mode: gzip trailer missing", more=[(FFCHUNK, "\treturn &base.LogChunk{\n\t\tID:    chunk.id,\n\t\tData:  chunkData,", "\tif chunk.compressor != nil {\n\t\tif err := chunk.compressor.Close(); err != nil {\n\t\t\treturn nil, err\n\t\t}\n\t}\n\treturn &base.LogChunk{\n\t\tID:    chunk.id,\n\t\tData:  chunkData,")]),
+    M("c11-r5-size-from-bytes", "C11", "C11.R5", FFENC, "\t\tSize:       params.NumRecords,", "\t\tSize:       params.NumBytes,", "any chunk: option size disagrees with the entries (upstream may reject or mis-count)"),
+    M("c11-r6-suffix-mismatch", "C11", "C11.R6", FFCONF, "\tchunkFactory := shared.NewChunkFactory(chunkIDSuffix, msgBufCapacity, newChunkFunc)", "\tchunkFactory := shared.NewChunkFactory(\".fwd\", msgBufCapacity, newChunkFunc)", "restart with spilled chunks: none is recovered"),
+]
+
+RTF = "base/bsupport/logtransforms.go"
+TSWITCH = "transform/tswitch/tswitch.go"
+TTRUNC = "transform/ttruncate/ttruncate.go"
+TDROP = "transform/tdrop/tdrop.go"
+ALLOC = "base/logallocator.go"
+LCM = "util/localcachedmap/localcachedmap.go"
+LPCS = "base/logprocesscounterset.go"
+RUNESC = "rewrite/runescape/runescape.go"
+
+MUTANTS += [
+    # ---------------- C15
+    M("c15-r1-ignore-drop", "C15", "C15.R1", RTF, "\t\tif transformFunc(record) == base.DROP {\n\t\t\treturn base.DROP\n\t\t}", "\t\tif transformFunc(record) == base.DROP {\n\t\t\tcontinue\n\t\t}", "a drop step followed by any other step: dropped records are forwarded"),
+    M("c15-r2-if-swallows-drop", "C15", "C15.R2", TIF, "\t\treturn bsupport.RunTransforms(record, tf.thenSteps)", "\t\tbsupport.RunTransforms(record, tf.thenSteps)\n\t\treturn base.PASS", "a drop nested inside if/then"),
+    B("c15-r2-benign-early-return", "C15", TIF, "\tif tf.matcher.Match(record) {\n\t\treturn bsupport.RunTransforms(record, tf.thenSteps)\n\t}\n\treturn base.PASS", "\tif !tf.matcher.Match(record) {\n\t\treturn base.PASS\n\t}\n\treturn bsupport.RunTransforms(record, tf.thenSteps)"),
+    M("c15-r2-switch-falls-through", "C15", "C15.R2", TSWITCH, "\t\tif matched {\n\t\t\treturn status\n\t\t}", "\t\tif matched && status == base.DROP {\n\t\t\treturn status\n\t\t}", "two cases matching the same record: both run"),
+    M("c15-r3-cut-without-clean", "C15", "C15.R3", TTRUNC, "\t\tvalueTrimmed := util.CleanUTF8(valueB[:tf.maxLength])", "\t\tvalueTrimmed := valueB[:tf.maxLength]\n\t\t_ = util.CleanUTF8", "multi-byte character across maxLength"),
+    M("c15-r3-guard-without-suffix", "C15", "C15.R3", TTRUNC, "\tif len(value) > tf.maxLength+len(tf.suffix) {", "\tif len(value) > tf.maxLength {", "value length between maxLength and maxLength+len(suffix): OverwriteNTruncate overruns"),
+    M("c15-r4-matched-counted-twice", "C15", "C15.R4", TDROP, "\ttf.totalMatched++\n\ttf.countRetained(record.RawLength)", "\ttf.totalMatched++\n\ttf.totalMatched++\n\ttf.countRetained(record.RawLength)", "sampling drifts away from the configured percentage"),
+    M("c15-r4-retained-at-100", "C15", "C15.R4", TDROP, "\tif tf.targetRate == 100 {\n\t\ttf.countDropped(record.RawLength)\n\t\treturn base.DROP\n\t}\n", "\tif tf.targetRate == 100 && tf.totalMatched >= 0 {\n\t\ttf.countDropped(record.RawLength)\n\t\treturn base.DROP\n\t}\n", "none in practice (guard weakened path-insensitively)", expect="violation"),
+    # ---------------- C12
+    B("c12-r1-benign-timestamp-not-reset", "C12", ALLOC, "\trecord.Timestamp = time.Time{}\n", ""),  # every producer assigns Timestamp before the record escapes
+    M("c12-r1-new-field-not-reset", "C12", "C12.R1", "base/logrecord.go", "\tUnescaped bool      // Whether the main message field has been un-escaped. Multi-line logs start with true.\n", "\tUnescaped bool      // Whether the main message field has been un-escaped. Multi-line logs start with true.\n\tSpilled   bool      // set by a transform\n", "any transform setting the new flag: it sticks to recycled records"),
+    M("c12-r1-unescaped-not-set-on-pass", "C12", "C12.R1", SP, "\trecord.Unescaped = strings.IndexByte(remaining, '\\n') != -1\n", "\tif strings.IndexByte(remaining, '\\n') != -1 {\n\t\trecord.Unescaped = true\n\t}\n", "a single-line record after a recycled multi-line record is not unescaped"),
+    M("c12-r2-use-after-release", "C12", "C12.R2", LPW, "\t\t\ticounter.CountRecordDrop(record)\n\t\t\tworker.deallocator.Release(record)\n", "\t\t\tworker.deallocator.Release(record)\n\t\t\ticounter.CountRecordDrop(record)\n", "dropped record recycled by a concurrent connection before its length is counted"),
+    M("c12-r3-transient-map-key", "C12", "C12.R3", LCM, "\tlm.localMap[permanentMergedKey] = newLocalCache", "\tlm.localMap[util.StringFromBytes(tempMergedKey)] = newLocalCache", "the key buffer is reused for the next lookup: the stored key silently changes"),
+    M("c12-r3-transient-label", "C12", "C12.R3", LPCS, "\t\t\tinputCounter:   NewLogInputCounter(pcounter.factory.AddOrGetPrefix(\"\", pcounter.metricKeyNames, permKeys)),", "\t\t\tinputCounter:   NewLogInputCounter(pcounter.factory.AddOrGetPrefix(\"\", pcounter.metricKeyNames, tempKeys)),", "label values change when the record buffer is recycled"),
+    M("c12-r5-revert-rewriter-flag", "C12", "C10.R4", RUNESC, "\t// The record must not be marked as unescaped here: only the output is unescaped, not the field in the record,\n\t// which is to be serialized again for other outputs\n", "\trecord.Unescaped = true\n", "two outputs with an unescape rewriter: original defect D24"),
+]
